@@ -88,6 +88,29 @@ def read_project(d: Path, names):
     return out
 
 
+def _drop_caches():
+    """executing / linecache keep every source file (text, AST, tokens) they have ever seen: a worker that
+    runs tens of thousands of generated projects would grow by ~0.7 MB per run"""
+    import linecache
+
+    linecache.clearcache()
+    try:
+        from executing import Source
+
+        for name, cache in list(vars(Source).items()):
+            if name in ("__source_cache_with_lines", "__executing_cache") and hasattr(cache, "clear"):
+                cache.clear()
+            elif hasattr(cache, "cache_clear"):
+                cache.cache_clear()  # unbounded lru_caches keyed by Source objects (statements_at_line, asttokens, ...)
+        import executing.executing as ee
+
+        for cache in list(vars(ee).values()):
+            if hasattr(cache, "cache_clear"):
+                cache.cache_clear()  # statement_containing_node: unbounded, keyed by AST nodes
+    except Exception:  # pragma: no cover
+        pass
+
+
 def _purge_modules():
     """forget vp and every module imported from a scratch project directory"""
     root = str(common.tmp_root())
@@ -213,6 +236,7 @@ def run(files: dict, flags=(), *, approve=None, call_tests=True, keep_dir=False,
         _purge_modules()
     res.files_after = read_project(d, files)
     res._keep = keep
+    _drop_caches()
     if not keep_dir:
         shutil.rmtree(d, ignore_errors=True)
     return res
@@ -259,6 +283,7 @@ def plain_run(files: dict, *, storage_from=None, call_tests=True):
         sys.path[:] = old_path
         _purge_modules()
         shutil.rmtree(d, ignore_errors=True)
+        _drop_caches()
     return logs, test_exc, exec_exc, globs
 
 
